@@ -46,6 +46,8 @@ func runC13(c *Ctx) {
 	c.floor("Z.LOCKED", 2)
 	c.floor("Z.RECHECK", 2)
 	c.floor("Z.PUBLISH", 2)
+	c.runTicket("TICKET", pkgs)
+	c.floor("TICKET", 0)
 	c.runPublish("PUBLISH", pkgs)
 	c.floor("PUBLISH", 2)
 	c.runLoopCapture("GO", pkgs)
